@@ -74,6 +74,7 @@ class VirtualLoop(asyncio.SelectorEventLoop):
         #: number of instrumented calls made by tasks since the last loop iteration
         self.spin = 0
         self.spin_limit = 20000
+        self.max_spin = 0
 
     def time(self):
         return self._vnow
@@ -100,6 +101,8 @@ class VirtualLoop(asyncio.SelectorEventLoop):
     def tick(self, what=""):
         """Called from instrumented functions of the system under test."""
         self.spin += 1
+        if self.spin > self.max_spin:
+            self.max_spin = self.spin
         if self.spin > self.spin_limit:
             self.spin = 0
             raise SpinDetected(f"{self.spin_limit} traversal steps without awaiting anything ({what})")
